@@ -151,12 +151,54 @@ def check_entry(case):
                     require(relerr(ca.partial_fluxes[k][i], cb.partial_fluxes[k][i]) <= 1e-8 and relerr(ca.permeances[k][i].value, cb.permeances[k][i].value) <= 1e-8,
                             "DiffusionCurve built from %s: flux/permeance %d at point %d differs between the two bases", label, i + 1, k)
         classes.append("hand-built-curves")
+        # the same measurements tabulated (DiffusionCurve.from_frame, the CSV layout): all rows as mass fractions, all rows as mole
+        # fractions, and rows of both kinds in one table - built-in mixtures only (tables name their mixture)
+        if "builtin" in case["mixture"]:
+            _frame_twins(case, mix, t, cw, cm, fl_, pv_)
+            classes.append("tabulated-curves")
     except EvaluationCap:
         raise Discard("evaluation cap reached (termination is C10's subject)")
     if compared == 0:
         raise Discard("no point could be compared (solver raised / exit flip)")
     nontrivial = not (0.8 <= m1 / m2 <= 1.25) and all(0.02 <= w <= 0.98 and 0.02 <= x <= 0.98 for w, x in zip(ws, xm))
     return {"nontrivial": nontrivial, "classes": classes}
+
+
+def _frame_twins(case, mix, t, cw, cm, fl_, pv_):
+    import pandas
+
+    from pyvaporation.diffusion_curve.diffusion_curve import DC_SET_COLUMNS
+
+    n = len(cw)
+    mixed = [cm[k] if k % 2 == 0 else cw[k] for k in range(n)]
+    alt = [cw[k] if k % 2 == 0 else cm[k] for k in range(n)]
+    perm = case["perm"]
+    for label, with_perm in (("fluxes", False), ("fluxes+permeances", True)):
+        loaded = {}
+        for name, comps in (("mass", cw), ("mole", cm), ("mole/mass rows", mixed), ("mass/mole rows", alt)):
+            frame = pandas.DataFrame({
+                "curve_id": ["1"] * n, "membrane_name": ["M"] * n, "mixture": [build.fresh(case["mixture"]["builtin"])] * n,
+                "feed_temperature": [t] * n, "permeate_temperature": [perm["T"] if not with_perm else None] * n,
+                "permeate_pressure": [perm["p"] if not with_perm else None] * n,
+                "composition": [c.p for c in comps], "composition_type": [build.fresh(c.type) for c in comps],
+                "partial_flux_1": [f[0] for f in fl_], "partial_flux_2": [f[1] for f in fl_],
+                "permeance_1": [p[0] if with_perm else None for p in pv_], "permeance_2": [p[1] if with_perm else None for p in pv_],
+                "units": [build.KG if with_perm else None] * n, "comment": [None] * n})[DC_SET_COLUMNS]
+            loaded[name] = call(build.curve_from_frame, frame)
+        ref = loaded["mass"]
+        for name, cur in loaded.items():
+            if is_raised(ref) or is_raised(cur):
+                require(is_raised(ref) and is_raised(cur), "curve tabulated with %s (%s): loading raises for one basis only (%r / %r)", label, name, ref, cur)
+                continue
+            for k in range(n):
+                require(cur.feed_compositions[k].type == ref.feed_compositions[k].type and
+                        abs(cur.feed_compositions[k].p - ref.feed_compositions[k].p) <= TOL,
+                        "curve tabulated with %s: point %d is %r when the table states %s, %r when it states mass fractions", label, k,
+                        cur.feed_compositions[k], name, ref.feed_compositions[k])
+                for i in (0, 1):
+                    require(relerr(cur.partial_fluxes[k][i], ref.partial_fluxes[k][i]) <= 1e-8 and
+                            relerr(cur.permeances[k][i].value, ref.permeances[k][i].value) <= 1e-8,
+                            "curve tabulated with %s (%s): flux/permeance %d at point %d differs from the mass-fraction table", label, name, i + 1, k)
 
 
 # ------------------------------------------------------------------------- process models
